@@ -44,13 +44,6 @@ func (p *verifParser) CanRestore() bool        { return p.canRestore }
 
 const verifNowMs = 1700000000000
 
-func verifB2I(b bool) int64 {
-	if b {
-		return 1
-	}
-	return 0
-}
-
 func verifOpsEq(a, b []string) bool {
 	if len(a) != len(b) {
 		return false
